@@ -203,6 +203,10 @@ func (s *Sim) Clone(rng *rand.Rand) (*Sim, error) {
 		allocStep: map[string]int{}, poolSizes: map[string]int{}, released200: map[string]bool{},
 		reloadDropped: map[string]bool{}}
 	n.Counts = map[string]int{}
+	n.adminReserved = map[string]bool{}
+	for k, v := range s.adminReserved {
+		n.adminReserved[k] = v
+	}
 	n.replHist = map[string][]int{}
 	n.poolEver = map[string]bool{}
 	n.prevPoolCnt, n.prevPoolBound, n.prevPoolHad = map[string]int{}, map[string]int{}, map[string]bool{}
